@@ -33,6 +33,7 @@ def run(ck, ctx):
         ck.configs.append(cfg)
         ck.fn_count += len(prog.fns)
         _rules(ck, prog, cfg)
+        _executor_twin(ck, prog, cfg)
 
 
 def _self_field(fn, place_or_operand, is_place=False):
@@ -299,3 +300,125 @@ def _rules(ck, prog, cfg):
             ck.check(any(fn.dominates(sb, eb) or eb in fn.reach([sb]) or sb in fn.reach([eb]) for sb in setb), "R05.7",
                      "unknown-in-multi#%d%s" % (k_, _tag(cfg)), "an error reply for an unknown command inside MULTI does not mark the "
                      "transaction as failed", fn.where(fn.term(eb)["ln"]), detail="errors flag set")
+
+
+# ------------------------------------------------------------------------------------------------
+# the executor-level twin (CommandExecutor::{execute, execute_multi/exec/discard/watch/unwatch}): same clauses, keys `executor:*`
+EX = "redis::executor::"
+XFIELDS = ("in_transaction", "queued_commands", "watched_keys")
+
+
+def _xfield(fn, operand_or_place, is_place=False):
+    s = src_of_place(fn, operand_or_place, through_calls=TRANSPARENT) if is_place else \
+        src_of_operand(fn, operand_or_place, through_calls=TRANSPARENT + (r"DerefMut>::deref_mut$", r"Deref>::deref$"))
+    if s.kind == "path" and s.root == "self" and s.fields and s.fields[0] in XFIELDS:
+        return s.fields[0]
+    return None
+
+
+def _xresets(fn):
+    """field -> blocks that reset it (in_transaction = false, queue/watch cleared or taken)"""
+    out = {k: set() for k in XFIELDS}
+    for b, i, st in fn.stmts():
+        if "p" in st["lhs"]:
+            f = _xfield(fn, st["lhs"], is_place=True)
+            if f == "in_transaction" and st["rv"]["k"] == "use" and st["rv"]["a"].get("c", "").strip() in ("const false", "false"):
+                out[f].add(b)
+    for b, t in fn.calls():
+        if t["args"] and is_callee(t, r"(Vec|AHashMap|HashMap)::<.*>::clear$", r"mem::take"):
+            f = _xfield(fn, t["args"][0])
+            if f in ("queued_commands", "watched_keys"):
+                out[f].add(b)
+    return out
+
+
+def _executor_twin(ck, prog, cfg):
+    ex = prog.one(EX + "CommandExecutor::execute")
+    names = [v["n"] for v in prog.adts["redis::command::Command"]["variants"]]
+    from . import effects
+    sw, table = effects.dispatch_table(prog, ex)
+    # R05.1: the dispatch is reached with in_transaction == true only for EXEC/DISCARD/MULTI; everything else is queued
+    edges = [(tt, ft, sb) for tt, ft, sb in _in_tx_edges(ex) if ex.dominates(sb, sw)]
+    ck.check(len(edges) == 1 and sw is not None, "R05.1", "executor:queue-guard-exists" + _tag(cfg),
+             "CommandExecutor::execute has no single in_transaction test in front of its dispatch", ex.where())
+    if len(edges) == 1 and sw is not None:
+        tt, ft, sb = edges[0]
+        exempt = set()
+        inner = None
+        for b in sorted(ex.reachable_blocks()):
+            si = switch_info(ex, b)
+            if b != sw and si and si["kind"] == "discr" and si["ty"] == "redis::command::Command" and ex.dominates(tt, b) and ex.pred(tt) == [sb]:
+                inner = b
+                for v, tg in ex.term(b)["cases"]:
+                    if names[int(v)] in ("Exec", "Discard", "Multi"):
+                        exempt.add((b, tg))
+        path = lib2.path_avoiding(ex, tt, lambda x: x == sw, lambda x: False, exempt, from_succ=False) if inner is not None else [tt]
+        if inner is not None and path is None:
+            # every variant that shares a passing edge must be one of the three
+            for v, tg in ex.term(inner)["cases"]:
+                if (inner, tg) in exempt and names[int(v)] not in ("Exec", "Discard", "Multi"):
+                    path = [inner, tg]
+        ck.check(inner is not None and path is None, "R05.1", "executor:dispatch-while-queuing" + _tag(cfg),
+                 "with a transaction open a command other than EXEC/DISCARD/MULTI can reach the executing dispatch of CommandExecutor::execute "
+                 "instead of being queued", ex.where(ex.term(sb)["ln"]), detail="only EXEC/DISCARD/MULTI pass the queue guard")
+        pushes = [b for b, t in ex.calls() if is_callee(t, r"Vec::<redis::command::Command>::push$") and _xfield(ex, t["args"][0]) == "queued_commands"
+                  and ex.dominates(tt, b)]
+        ck.check(len(pushes) == 1, "R05.1", "executor:queues-the-command" + _tag(cfg), "the queuing arm does not push the command exactly once", ex.where())
+    # R05.2: EXEC and DISCARD reset all three fields on every path behind the in_transaction test
+    for short in ("execute_exec", "execute_discard"):
+        f = prog.one(EX + "transaction_ops::<impl redis::executor::CommandExecutor>::" + short)
+        ed = _in_tx_edges(f)
+        if not ed:
+            ck.anchor_lost("R05.2", "%s has no in_transaction test" % short)
+            continue
+        tt, ft, sb = ed[0]
+        rs = _xresets(f)
+        for fld in XFIELDS:
+            path = lib2.path_avoiding(f, tt, lambda x: f.term(x)["k"] == "return", lambda x, fld=fld: x in rs[fld], (), from_succ=False)
+            ck.check(path is None, "R05.2", "executor:%s:%s%s" % (short, fld, _tag(cfg)),
+                     "a path through %s leaves `%s` untouched: the next transaction of this executor starts with stale state" % (short, fld),
+                     f.where(), detail="reset on every path")
+    # R05.3 + abort: EXEC replays the taken queue through one map(execute) and not at all when a watched key changed
+    f = prog.one(EX + "transaction_ops::<impl redis::executor::CommandExecutor>::execute_exec")
+    maps = [(b, t) for b, t in f.calls() if is_callee(t, r"Iterator>::map::")]
+    adapt = [callee(t).rsplit("::", 1)[-1] for b, t in f.calls()
+             if is_callee(t, r"Iterator>::(filter|filter_map|take|skip|step_by|take_while|skip_while|rev|chain|zip|flat_map)\b")
+             and not any(f.dominates(bb, b) and False for bb, _ in maps)]
+    replay = [c for c in prog.children(f) if any(is_callee(t, r"CommandExecutor::execute$") for _, t in c.calls())]
+    colls = [b for b, t in f.calls() if is_callee(t, r"Iterator>::collect::<std::vec::Vec<redis::resp::RespValue>>$")]
+    ck.check(len(replay) == 1 and len(colls) == 1, "R05.3", "executor:one-result-per-command" + _tag(cfg),
+             "execute_exec does not build its reply as one execute() per queued command collected into a Vec", f.where(),
+             detail="commands.into_iter().map(execute).collect()")
+    if colls:
+        src = src_of_operand(f, f.term(colls[0])["args"][0])
+        chain = []
+        cur = src
+        hops = 0
+        while cur.kind == "call" and hops < 6:
+            chain.append(callee(cur.term).rsplit("::", 1)[-1].split("<")[0])
+            cur = src_of_operand(f, cur.term["args"][0])
+            hops += 1
+        ck.check(chain[:2] == ["map", "into_iter"] and len(chain) <= 3, "R05.3", "executor:replay-chain" + _tag(cfg),
+                 "the EXEC replay iterates the queue through %s: an adaptor that drops, reorders or truncates commands breaks "
+                 "one-result-per-command" % chain, f.where(f.term(colls[0])["ln"]), detail="into_iter -> map -> collect")
+        # watch violation aborts before any replay
+        viol = None
+        for b in sorted(f.reachable_blocks()):
+            si = switch_info(f, b)
+            if si and si["kind"] == "val" and si["src"].kind in ("call", "path") and (si["src"].root == "watch_violated" or
+                                                                                  (si["src"].kind == "call" and is_callee(si["src"].term, r"Iterator>::any::"))):
+                viol = b
+        ck.check(viol is not None, "R05.3", "executor:watch-test-exists" + _tag(cfg), "execute_exec does not test the WATCH snapshots", f.where())
+        if viol is not None:
+            tt2, ft2 = lib2.bool_edges(f, viol)
+            ck.check(colls[0] not in f.reach([tt2]) and f.dominates(viol, colls[0]), "R05.3", "executor:abort-before-replay" + _tag(cfg),
+                     "the queued commands can be executed although a watched key changed", f.where(f.term(viol)["ln"]),
+                     detail="replay only on the not-violated edge")
+    # UNWATCH clears, MULTI opens with an empty queue
+    f = prog.one(EX + "transaction_ops::<impl redis::executor::CommandExecutor>::execute_unwatch")
+    ck.check(bool(_xresets(f)["watched_keys"]), "R05.2", "executor:execute_unwatch:watched_keys" + _tag(cfg), "UNWATCH does not clear the snapshots", f.where())
+    f = prog.one(EX + "transaction_ops::<impl redis::executor::CommandExecutor>::execute_multi")
+    sets = [b for b, i, st in f.stmts() if "p" in st["lhs"] and _xfield(f, st["lhs"], True) == "in_transaction" and
+            st["rv"]["k"] == "use" and st["rv"]["a"].get("c", "").strip() in ("const true", "true")]
+    ck.check(bool(sets) and bool(_xresets(f)["queued_commands"]), "R05.5", "executor:execute_multi:opens" + _tag(cfg),
+             "MULTI does not set in_transaction and start from an empty queue", f.where(), detail="in_transaction = true; queue cleared")
